@@ -234,12 +234,31 @@ def get_cell(ctx):
 # ------------------------------------------------------------------------------------------------ C10
 
 def neighbours(ctx):
+    """tuple form: all extents symbolic.  int form: width and height concrete per query (every pair 0..WH), depth
+    symbolic - the id of a cell is then linear; that ids equal table ranks for ALL shapes is C09's id_formula."""
+    if ctx.part["ret"] == "int":
+        WH = ctx.part.get("WH", 3)
+        for cw in range(WH + 1):
+            for ch in range(WH + 1):
+                _neighbours(ctx, cw, ch, first=(cw == 0 and ch == 0))
+                if ctx.cex is not None or ctx.q.failed is not None:
+                    return
+        return
+    _neighbours(ctx, None, None, first=True)
+
+
+def _neighbours(ctx, cw_fixed, ch_fixed, first):
     kind, R, form = ctx.part["kind"], ctx.part["R"], ctx.part["ret"]
     ret = int if form == "int" else tuple
-    cx, cy, cz, r, w, h, d = z3.Ints('cx cy cz r w h d')
+    cx, cy, cz, r, d = z3.Ints('cx cy cz r d')
+    if cw_fixed is None:
+        w, h = z3.Ints('w h')
+    else:
+        w, h = z3.IntVal(cw_fixed), z3.IntVal(ch_fixed)
+    tag = "" if cw_fixed is None else "[w=%d,h=%d] " % (cw_fixed, ch_fixed)
     px, py, pz = z3.Ints('px py pz')
     incl = z3.Bool('incl')
-    env = _sym_world(w, h, d)
+    env = _sym_world(w if cw_fixed is None else cw_fixed, h if ch_fixed is None else ch_fixed, d)
     centre_form = ctx.part.get("centre", "tuple")
     K = Interp(unroll=2 * R + 1)
     fn = env.get_moore_neighbours if kind == "moore" else env.get_neumann_neighbours
@@ -264,7 +283,7 @@ def neighbours(ctx):
     ctx.notes.append("%d guarded entries, %d unwinding assertions" % (len(lst.entries), len(K.unwinding)))
 
     # translator validation against the real function on real worlds (tuple-form centres only: concrete subst)
-    if centre_form == "tuple":
+    if centre_form == "tuple" and cw_fixed is None:
         n = 0
         for (cw, ch, cd) in ((3, 3, 3), (4, 2, 0), (3, 0, 2), (1, 5, 1), (2, 2, 2)):
             real = E.DiscreteWorld(Model(), cw, ch, cd)
@@ -285,12 +304,16 @@ def neighbours(ctx):
         ctx.validated(n)
 
     q = ctx.q
-    q.check("pre satisfiable", pre, "sat")
-    q.check("pre satisfiable (radius beyond the grid)", pre + [r > w + h + d, w >= 2], "sat")
-    q.check("pre satisfiable (degenerate shape)", pre + [z3.Or(w == 0, h == 0, d == 0), r >= 1], "sat")
+    if first:
+        q.check("pre satisfiable", pre, "sat")
+        if cw_fixed is None:
+            q.check("pre satisfiable (radius beyond the grid)", pre + [r > w + h + d, w >= 2], "sat")
+            q.check("pre satisfiable (degenerate shape)", pre + [z3.Or(w == 0, h == 0, d == 0), r >= 1], "sat")
 
     def replay(model):
-        cw, ch, cd = _num(model, 'w'), _num(model, 'h'), _num(model, 'd')
+        cw = _num(model, 'w') if cw_fixed is None else cw_fixed
+        ch = _num(model, 'h') if ch_fixed is None else ch_fixed
+        cd = _num(model, 'd')
         c = (_num(model, 'cx'), _num(model, 'cy'), _num(model, 'cz'))
         rr = _num(model, 'r')
         ic = str(model.get('incl', 'False')) == 'True'
@@ -319,11 +342,11 @@ def neighbours(ctx):
                 "incl_center": ic, "ret_type": form, "got": got[:40], "expected": want[:40],
                 "what": "%s neighbourhood differs from the metric ball clipped to the grid" % kind}
 
-    r_, model = q.check("unwinding assertion (loops need no more than %d iterations)" % (2 * R + 1), pre + [z3.Or(K.unwinding)], "unsat")
+    r_, model = q.check(tag + "unwinding assertion (loops need no more than %d iterations)" % (2 * R + 1), pre + [z3.Or(K.unwinding)], "unsat")
     if r_ == "sat":
         ctx.q.failed = ("unwinding", "inconclusive", "unwinding assertion violated: bound too small", model)
         return
-    r_, model = q.check("no exception", pre + [z3.Or([g for g, v in raises])] if raises else pre + [z3.BoolVal(False)], "unsat")
+    r_, model = q.check(tag + "no exception", pre + [z3.Or([g for g, v in raises])] if raises else pre + [z3.BoolVal(False)], "unsat")
     if r_ == "sat":
         ctx.report_cex("no_exception", model, replay(model))
         return
@@ -342,7 +365,7 @@ def neighbours(ctx):
             return v == prank
         probe_dom = ingrid           # ids are probed through the rank of an in-grid probe cell ...
     cnt = z3.Sum([z3.If(z3.And(g, hit(v)), 1, 0) for g, v in lst.entries])
-    r_, model = q.check("each cell of the clipped metric ball exactly once, nothing else (symbolic probe cell)",
+    r_, model = q.check(tag + "each cell of the clipped metric ball exactly once, nothing else (symbolic probe cell)",
                         pre + [probe_dom, cnt != z3.If(spec, 1, 0)], "unsat")
     if r_ == "sat":
         ctx.report_cex("exact", model, replay(model))
@@ -350,20 +373,31 @@ def neighbours(ctx):
     if ret is int:
         # ... and no returned id lies outside the table
         oob = z3.Or([z3.And(g, z3.Or(v < 0, v >= m1(w) * m1(h) * m1(d))) for g, v in lst.entries])
-        r_, model = q.check("every returned id denotes a cell of the table", pre + [oob], "unsat")
+        r_, model = q.check(tag + "every returned id denotes a cell of the table", pre + [oob], "unsat")
         if r_ == "sat":
             ctx.report_cex("id_in_table", model, replay(model))
             return
     if ctx.part.get("no_order"):
         return
     # ascending cell order: for any two present entries the later one has the larger rank
+    # ascending cell order, with two symbolic probe cells P <lex Q that are both in the answer: the (unique, by
+    # exactness) program position of P's entry precedes that of Q's.  Cell order = table rank = lexicographic (z,y,x).
+    qx, qy, qz = z3.Ints('qx qy qz')
     ents = lst.entries
-    rk = [(g, (rank(v[0], v[1], v[2], w, h) if ret is tuple else v)) for g, v in ents]
-    viol = []
-    for i in range(len(rk)):
-        for j in range(i + 1, len(rk)):
-            viol.append(z3.And(rk[i][0], rk[j][0], rk[i][1] >= rk[j][1]))
-    r_, model = q.check("ascending cell order", pre + [z3.Or(viol)], "unsat")
+    if ret is tuple:
+        hit_p = [z3.And(g, v[0] == px, v[1] == py, v[2] == pz) for g, v in ents]
+        hit_q = [z3.And(g, v[0] == qx, v[1] == qy, v[2] == qz) for g, v in ents]
+    else:
+        hit_p = [z3.And(g, v == rank(px, py, pz, w, h)) for g, v in ents]
+        hit_q = [z3.And(g, v == rank(qx, qy, qz, w, h)) for g, v in ents]
+    idx_p = z3.Sum([z3.If(c, k, 0) for k, c in enumerate(hit_p)])
+    idx_q = z3.Sum([z3.If(c, k, 0) for k, c in enumerate(hit_q)])
+    p_in = z3.Or(hit_p)
+    q_in = z3.Or(hit_q)
+    lex = z3.Or(pz < qz, z3.And(pz == qz, z3.Or(py < qy, z3.And(py == qy, px < qx))))
+    both_grid = z3.And(ingrid, in_table(qx, qy, qz, w, h, d))
+    r_, model = q.check(tag + "ascending cell order (two symbolic probe cells)",
+                        pre + [both_grid, p_in, q_in, lex, idx_p >= idx_q], "unsat")
     if r_ == "sat":
         ctx.report_cex("ascending", model, replay(model))
         return
